@@ -293,6 +293,9 @@ func c12Prop(k *verifkit.Kit) func(c c12Case) error {
 			}
 		}
 		cls := []string{fmt.Sprintf("expected-problems=%d", min(len(want), 4)), fmt.Sprintf("aspects-on-both-sides=%d", min(both, 4))}
+		if np, nr := len(c12Pick(c.Ours, "prefix"))*len(c12Pick(c.Theirs, "prefix")), len(c12Pick(c.Ours, "route"))*len(c12Pick(c.Theirs, "route")); np > 16 || nr > 16 {
+			cls = append(cls, "more-than-16-option-pairs-of-a-kind")
+		}
 		k.Record(c, both >= 1 || len(want) > 0, cls...)
 		wantS := c12Multiset(want, drop)
 
@@ -410,18 +413,25 @@ func raStr(ra *ndp.RouterAdvertisement) string {
 // --- generators --------------------------------------------------------------
 
 var c12Prefixes = []string{"2001:db8:1::/64", "2001:db8:2::/64", "2001:db8:1::/48", "fd00::/64"}
+
+// c12PrefixesLarge is the pool of the "large" generator mode (one case in
+// four, up to 24 options a side): several lengths at the same base address,
+// nested and disjoint networks, so that long option lists with near-equal
+// keys occur on both sides.
+var c12PrefixesLarge = append(append([]string(nil), c12Prefixes...), "2001:db8::/32", "2001:db8::/48", "2001:db8::/56", "2001:db8::/64", "2001:db8:1::/56",
+	"2001:db8:2::/48", "2001:db8:3::/64", "fd00::/8", "fd00::/48", "fd00:0:0:1::/64", "2a00:1::/32", "2a00:1::/64")
 var c12Servers = [][]string{{"2001:db8::53"}, {"2001:db8::53", "2001:db8::54"}, {"2001:db8::54", "2001:db8::53"}, {"fd00::53"}}
 var c12Domains = [][]string{{"lan"}, {"lan", "example.com"}, {"example.com", "lan"}, {"corp.example.net"}}
 
-func c12GenOpt(t *rapid.T, kind string) vOpt {
+func c12GenOpt(t *rapid.T, kind string, pool []string) vOpt {
 	life := rapid.SampledFrom([]int64{0, 600, 1800, 86400}).Draw(t, kind+"-life")
 	switch kind {
 	case "prefix":
 		v := rapid.SampledFrom([]int64{600, 1800, 86400, 4294967295}).Draw(t, "valid")
-		return vOpt{Kind: kind, Prefix: rapid.SampledFrom(c12Prefixes).Draw(t, "prefix"), OnLink: rapid.Bool().Draw(t, "l"), Auto: rapid.Bool().Draw(t, "a"),
+		return vOpt{Kind: kind, Prefix: rapid.SampledFrom(pool).Draw(t, "prefix"), OnLink: rapid.Bool().Draw(t, "l"), Auto: rapid.Bool().Draw(t, "a"),
 			ValidS: v, PrefS: rapid.SampledFrom([]int64{300, 600, v}).Draw(t, "pref")}
 	case "route":
-		return vOpt{Kind: kind, Prefix: rapid.SampledFrom(c12Prefixes).Draw(t, "rprefix"), RPref: rapid.SampledFrom([]int{0, 1, 3}).Draw(t, "rpref"), LifeS: life}
+		return vOpt{Kind: kind, Prefix: rapid.SampledFrom(pool).Draw(t, "rprefix"), RPref: rapid.SampledFrom([]int{0, 1, 3}).Draw(t, "rpref"), LifeS: life}
 	case "rdnss":
 		return vOpt{Kind: kind, LifeS: life, Servers: rapid.SampledFrom(c12Servers).Draw(t, "servers")}
 	case "dnssl":
@@ -438,7 +448,7 @@ func c12GenOpt(t *rapid.T, kind string) vOpt {
 	return vOpt{Kind: "raw"}
 }
 
-func c12GenRA(t *rapid.T, theirs bool) vRA {
+func c12GenRA(t *rapid.T, theirs bool, pool []string) vRA {
 	r := vRA{
 		Hop:       rapid.SampledFrom([]uint8{0, 64, 64, 255}).Draw(t, "hop"),
 		M:         rapid.Bool().Draw(t, "m"),
@@ -452,18 +462,36 @@ func c12GenRA(t *rapid.T, theirs bool) vRA {
 	if theirs {
 		kinds = append(kinds, "raw")
 	}
+	nopts := rapid.IntRange(0, 7).Draw(t, "nopts")
+	if len(pool) > len(c12Prefixes) {
+		kinds = append(kinds, "prefix", "prefix", "prefix", "prefix", "route", "route", "route", "route", "route", "route")
+		nopts = rapid.IntRange(6, 30).Draw(t, "noptslarge")
+	}
 	usedP, usedR, single := map[string]bool{}, map[string]bool{}, map[string]bool{}
-	for i, n := 0, rapid.IntRange(0, 7).Draw(t, "nopts"); i < n; i++ {
+	for i, n := 0, nopts; i < n; i++ {
 		kind := rapid.SampledFrom(kinds).Draw(t, "kind")
-		o := c12GenOpt(t, kind)
+		o := c12GenOpt(t, kind, pool)
+		// in the large mode our own lists are as a configuration allows them:
+		// no two prefixes (or routes) overlap; other routers may send anything
+		overlaps := func(used map[string]bool) bool {
+			if theirs || len(pool) == len(c12Prefixes) {
+				return false
+			}
+			for u := range used {
+				if netip.MustParsePrefix(u).Overlaps(netip.MustParsePrefix(o.Prefix)) {
+					return true
+				}
+			}
+			return false
+		}
 		switch kind {
 		case "prefix": // one option per prefix within an RA (pairs are matched by prefix)
-			if usedP[o.Prefix] {
+			if usedP[o.Prefix] || overlaps(usedP) {
 				continue
 			}
 			usedP[o.Prefix] = true
 		case "route":
-			if usedR[o.Prefix] {
+			if usedR[o.Prefix] || overlaps(usedR) {
 				continue
 			}
 			usedR[o.Prefix] = true
@@ -484,13 +512,17 @@ func c12GenRA(t *rapid.T, theirs bool) vRA {
 }
 
 func c12Gen(t *rapid.T) c12Case {
-	ours := c12GenRA(t, false)
+	pool := c12Prefixes
+	if rapid.IntRange(0, 3).Draw(t, "large") == 3 {
+		pool = c12PrefixesLarge
+	}
+	ours := c12GenRA(t, false, pool)
 	var theirs vRA
 	if rapid.Bool().Draw(t, "derive") {
 		// theirs = ours with a few edits: keeps many aspects present on both sides
 		b, _ := json.Marshal(ours)
 		_ = json.Unmarshal(b, &theirs)
-		for i, n := 0, rapid.IntRange(0, 3).Draw(t, "nedits"); i < n; i++ {
+		for i, n := 0, rapid.IntRange(0, 3+len(pool)/4).Draw(t, "nedits"); i < n; i++ {
 			switch rapid.IntRange(0, 7).Draw(t, "edit") {
 			case 0:
 				theirs.Hop = rapid.SampledFrom([]uint8{0, 64, 255}).Draw(t, "ehop")
@@ -506,7 +538,7 @@ func c12Gen(t *rapid.T) c12Case {
 				if len(theirs.Opts) > 0 {
 					j := rapid.IntRange(0, len(theirs.Opts)-1).Draw(t, "eopt")
 					prefix := theirs.Opts[j].Prefix
-					theirs.Opts[j] = c12GenOpt(t, theirs.Opts[j].Kind)
+					theirs.Opts[j] = c12GenOpt(t, theirs.Opts[j].Kind, pool)
 					if prefix != "" && rapid.Bool().Draw(t, "keepprefix") {
 						theirs.Opts[j].Prefix = prefix
 					}
@@ -535,7 +567,7 @@ func c12Gen(t *rapid.T) c12Case {
 		}
 		theirs.Opts = opts
 	} else {
-		theirs = c12GenRA(t, true)
+		theirs = c12GenRA(t, true, pool)
 	}
 	return c12Case{Ours: ours, Theirs: theirs}
 }
